@@ -1,15 +1,16 @@
-\* zero steps (single-element dimensions), as the generated wrappers use them to write one state row
+\* broadcast views: zero steps over extents > 1 (every index of the dimension addresses element loc), alone and
+\* nested under / over ordinary slices; reads, bulk observations and single-element writes
 SPECIFICATION Spec
 CONSTANTS
   Shapes <- ShapesZ
   StepVals <- Steps01
-  Broadcast = FALSE
-  MaxSlices = 1
+  Broadcast = TRUE
+  MaxSlices = 2
   MaxWrites = 1
   MaxReshapes = 0
-  WriteOps = {"set", "apply", "applyslice"}
+  WriteOps = {"set"}
   AllowNil = FALSE
-  ChainOnly = FALSE
+  ChainOnly = TRUE
   WriteNewest = FALSE
   AllowReduce = FALSE
   AllowCopy = FALSE
